@@ -710,3 +710,22 @@ package plenccodec
 //@   safety C05
 //@   assigns nothing
 //@   ensures[C05] result == len(tag) + vlen(uint64(@time.Time.UnixMicro(loadtime(ptr))))       # what Append writes
+
+// ---------------------------------------------------------------------------
+// interning (C19): the table maps every string to an equal string that it owns
+
+//@ func plenccodec.*InternedStringCodec.Read
+//@   safety C19 C04 C11
+//@   mapinvariant[C19] len(val) == len(key) && (forall j int :: 0 <= j && j < len(key) ==> val[j] == key[j])
+//@   ensures[C19,C01,C04,C05] err == nil && n == len(data)
+//@   ensures[C19,C01,C11] bytes(loadstr(ptr)) == old(bytes(data))          # exactly what StringCodec.Read yields
+
+//@ func plenccodec.*InternedStringCodec.addString
+//@   safety C19 C11
+//@   loop 1 invariant[C19] true          # copying the old table: every entry copied satisfies the invariant (checked at the update)
+//@   mapinvariant[C19] len(val) == len(key) && (forall j int :: 0 <= j && j < len(key) ==> val[j] == key[j])
+//@   ensures[C19,C11] bytes(result) == old(bytes(data))
+
+//@ func plenccodec.StringCodec.WithInterning
+//@   safety C19
+//@   ensures[C19] result != nil
